@@ -287,22 +287,45 @@ inline vf::CaseResult run_sessions(const vf::RunnerArgs& /*args*/, const std::ve
 inline vf::CaseResult run_version(const vf::RunnerArgs& /*args*/, const std::vector<std::uint8_t>& bytes, bool record, vf::Stats& st) {
     vf::CaseResult res;
     Chooser c(bytes);
+    const bool v2 = vf::g_decoder >= 2;
     unsigned nt = 2 + c.range(0, 2);
     struct Prog {
-        bool writer;
+        unsigned role; // 0 = reader, 1 = writer (lock / flag / unlock), 2 = setter (flag CAS loops WITHOUT holding the lock)
         unsigned rounds;
-        std::vector<unsigned> flags; // per round: bit0 = inserting, bit1 = splitting
+        std::vector<unsigned> flags; // writer: bit0 = inserting, bit1 = splitting; setter: op code
     };
     std::vector<Prog> prog(nt);
     std::ostringstream tx;
     bool any_writer = false;
     bool any_reader = false;
+    bool any_setter = false;
+    // a setter owns the fields it sets (one setter per case), so the final value of each field is known
     for (unsigned t = 0; t < nt; ++t) {
-        prog[t].writer = t == 0 ? true : (t == 1 ? c.flip() : c.flip());
+        bool w = t == 0 ? true : (t == 1 ? c.flip() : c.flip());
+        prog[t].role = w ? 1 : 0;
         prog[t].rounds = 1 + c.range(0, 2);
         for (unsigned r = 0; r < prog[t].rounds; ++r) { prog[t].flags.push_back(c.range(0, 3)); }
-        tx << " T" << t << (prog[t].writer ? ":writer" : ":reader") << "x" << prog[t].rounds;
-        (prog[t].writer ? any_writer : any_reader) = true;
+    }
+    if (v2 && c.chance(1, 2)) {
+        // the last thread becomes the setter: root / border / deleted flags and the atomic insert-counter increment, as
+        // interior_node::delete_of does with atomic_set_version_root on a sibling it has not locked
+        Prog& p = prog[nt - 1];
+        p.role = 2;
+        p.rounds = 1 + c.range(0, 3);
+        p.flags.clear();
+        for (unsigned r = 0; r < p.rounds; ++r) { p.flags.push_back(c.range(0, 6)); }
+    }
+    for (unsigned t = 0; t < nt; ++t) {
+        tx << " T" << t << (prog[t].role == 1 ? ":writer" : (prog[t].role == 2 ? ":setter" : ":reader")) << "x" << prog[t].rounds;
+        if (prog[t].role == 2) {
+            tx << "(";
+            for (auto f : prog[t].flags) {
+                static const char* names[] = {"root=1", "root=0", "border=1", "border=0", "deleted=1", "deleted=0", "inc_vinsert"};
+                tx << names[f] << " ";
+            }
+            tx << ")";
+        }
+        (prog[t].role == 1 ? any_writer : (prog[t].role == 2 ? any_setter : any_reader)) = true;
     }
     auto* nv = new node_version64(); // NOLINT (heap: must not look like a stack-local object to the scheduler)
     nv->init();
@@ -312,17 +335,24 @@ inline vf::CaseResult run_version(const vf::RunnerArgs& /*args*/, const std::vec
         for (int i = 0; i < 3; ++i) { b.inc_vsplit(); }
         nv->set_body(b);
     }
+    const node_version64_body initial = nv->get_body();
     auto& S = sched::Scheduler::get();
     int owner = -1;
     std::uint64_t flagged_inv = 0;
     std::uint64_t flagged_done = 0;
+    std::uint64_t ins_unlocks = 0;
+    std::uint64_t split_unlocks = 0;
+    std::uint64_t atomic_incs = 0;
+    int want_root = -1;
+    int want_border = -1;
+    int want_deleted = -1;
     std::vector<std::string> errs(nt);
     bool equal_pair_seen = false;
     std::vector<std::function<void()>> bodies;
     for (unsigned t = 0; t < nt; ++t) {
         bodies.emplace_back([&, t] {
             for (unsigned r = 0; r < prog[t].rounds; ++r) {
-                if (prog[t].writer) {
+                if (prog[t].role == 1) {
                     nv->lock();
                     if (owner != -1) { errs[t] = "lock returned while T" + std::to_string(owner) + " holds the lock"; }
                     owner = static_cast<int>(t);
@@ -330,19 +360,37 @@ inline vf::CaseResult run_version(const vf::RunnerArgs& /*args*/, const std::vec
                     if ((f & 1U) != 0) { nv->atomic_set_inserting_deleting(true); }
                     if ((f & 2U) != 0) { nv->atomic_set_splitting(true); }
                     if (owner != static_cast<int>(t)) { errs[t] = "another thread entered the critical section"; }
+                    if (!nv->get_body().get_locked()) { errs[t] = "the lock bit vanished under its owner"; }
                     owner = -1;
                     if (f != 0) { ++flagged_inv; }
+                    if ((f & 1U) != 0) { ++ins_unlocks; }
+                    if ((f & 2U) != 0) { ++split_unlocks; }
                     nv->unlock();
                     if (f != 0) { ++flagged_done; }
+                } else if (prog[t].role == 2) {
+                    switch (prog[t].flags[r]) {
+                        case 0: nv->atomic_set_root(true); want_root = 1; break;
+                        case 1: nv->atomic_set_root(false); want_root = 0; break;
+                        case 2: nv->atomic_set_border(true); want_border = 1; break;
+                        case 3: nv->atomic_set_border(false); want_border = 0; break;
+                        case 4: nv->atomic_set_deleted(true); want_deleted = 1; break;
+                        case 5: nv->atomic_set_deleted(false); want_deleted = 0; break;
+                        default:
+                            nv->atomic_inc_vinsert();
+                            ++atomic_incs;
+                            ++flagged_inv;
+                            ++flagged_done;
+                    }
+                    sched::op_boundary();
                 } else {
                     node_version64_body v1 = nv->get_stable_version();
                     std::uint64_t inv_at_v1 = flagged_inv;
                     if (v1.get_locked() || v1.get_inserting_deleting() || v1.get_splitting()) { errs[t] = "stable version is locked or dirty"; }
                     sched::op_boundary();
                     std::uint64_t done_at_v2 = flagged_done;
-                    node_version64_body v2 = nv->get_stable_version();
-                    if (v2.get_locked() || v2.get_inserting_deleting() || v2.get_splitting()) { errs[t] = "stable version is locked or dirty"; }
-                    if (v1 == v2) {
+                    node_version64_body v2b = nv->get_stable_version();
+                    if (v2b.get_locked() || v2b.get_inserting_deleting() || v2b.get_splitting()) { errs[t] = "stable version is locked or dirty"; }
+                    if (v1 == v2b) {
                         equal_pair_seen = true;
                         if (done_at_v2 > inv_at_v1) { errs[t] = "two equal stable versions although a flagged unlock completed in between"; }
                     }
@@ -363,7 +411,7 @@ inline vf::CaseResult run_version(const vf::RunnerArgs& /*args*/, const std::vec
         ++st.checks;
         if (!errs[t].empty() && res.pass) {
             res.pass = false;
-            res.signature = errs[t].find("lock returned") != std::string::npos || errs[t].find("critical") != std::string::npos
+            res.signature = errs[t].find("lock returned") != std::string::npos || errs[t].find("critical") != std::string::npos || errs[t].find("vanished") != std::string::npos
                                     ? "lock_not_exclusive"
                                     : (errs[t].find("dirty") != std::string::npos ? "stable_returned_dirty" : "equal_versions_across_unlock");
             res.message = "T" + std::to_string(t) + ": " + errs[t] + "\n" + text;
@@ -375,15 +423,38 @@ inline vf::CaseResult run_version(const vf::RunnerArgs& /*args*/, const std::vec
         res.signature = "lock_left";
         res.message = "word left locked/dirty after all threads finished\n" + text;
     }
+    if (res.pass) {
+        // every completed operation is in the final word: counters advanced by exactly the flagged unlocks (+ atomic increments),
+        // each flag holds what its only setter stored last, nothing else moved
+        ++st.checks;
+        node_version64_body want = initial;
+        for (std::uint64_t i = 0; i < ins_unlocks + atomic_incs; ++i) { want.inc_vinsert_delete(); }
+        for (std::uint64_t i = 0; i < split_unlocks; ++i) { want.inc_vsplit(); }
+        if (want_root >= 0) { want.set_root(want_root == 1); }
+        if (want_border >= 0) { want.set_border(want_border == 1); }
+        if (want_deleted >= 0) { want.set_deleted(want_deleted == 1); }
+        if (!(fin == want)) {
+            res.pass = false;
+            res.signature = "final_word_mismatch";
+            char buf[200];
+            std::snprintf(buf, sizeof(buf), "final word: vinsert=%u vsplit=%u root=%d border=%d deleted=%d, expected vinsert=%u vsplit=%u root=%d border=%d deleted=%d",
+                          static_cast<unsigned>(fin.get_vinsert_delete()), static_cast<unsigned>(fin.get_vsplit()), fin.get_root() ? 1 : 0, fin.get_border() ? 1 : 0,
+                          fin.get_deleted() ? 1 : 0, static_cast<unsigned>(want.get_vinsert_delete()), static_cast<unsigned>(want.get_vsplit()),
+                          want.get_root() ? 1 : 0, want.get_border() ? 1 : 0, want.get_deleted() ? 1 : 0);
+            res.message = std::string(buf) + " (an update of one thread was overwritten by another thread's read-modify-write)\n" + text;
+        }
+    }
     delete nv; // NOLINT
     if (record && res.pass) {
         if (S.spin_blocks > 0) { st.cls("contended_spin"); }
         if (equal_pair_seen) { st.cls("equal_stable_pair"); }
-        if (any_writer && S.preemptions > 0 && (S.spin_blocks > 0 || any_reader)) {
+        if (any_setter) { st.cls("unlocked_flag_setter"); }
+        if (any_writer && S.preemptions > 0 && (S.spin_blocks > 0 || any_reader || any_setter)) {
             std::uint64_t fp = vf::fnv1a(text);
             fp = vf::fnv1a(S.trace.data(), S.trace.size(), fp);
             st.nontrivial(fp);
             if (st.want_sample("version")) { st.sample("version", text); }
+            if (any_setter && st.want_sample("version+setter")) { st.sample("version+setter", text); }
         }
     }
     return res;
